@@ -878,6 +878,69 @@ def _find_violation(finder: Any, root: Any, walk: list[tuple[str, Any]], rng: ra
 		if finder.exists(root, p) is not True:
 			_LAST_PATH.append(p)
 			return f'exists({p}) is not True for a path of full_pathfy'
+	return _noncanonical_violation(finder, root, walk, rng)
+
+
+def own_pluck(root: Any, path: str) -> Any:
+	"""The documented lookup rule on the tree itself (finder.py / EntryPath.identify): the first element stands for the root;
+	an element with an index addresses the child at that position, an element without one the LAST child carrying the tag;
+	None = no such entry. Only elements `tag` / `tag[n]` with n >= 0 are asked."""
+	e = root
+	for el in path.split('.')[1:]:
+		if not e.has_child:
+			return None
+		cs = e.children
+		if el.endswith(']'):
+			i = int(el[el.index('[') + 1:-1])
+			if not 0 <= i < len(cs):
+				return None
+			e = cs[i]
+		else:
+			same = [c for c in cs if c.name == el]
+			if not same:
+				return None
+			e = same[-1]
+	return e
+
+
+def _noncanonical_violation(finder: Any, root: Any, walk: list[tuple[str, Any]], rng: random.Random) -> str | None:
+	"""Paths full_pathfy does not produce but pluck / exists / find accept: every canonical path with the index of ONE element
+	dropped (each position in turn: the rule says the last child with that tag), with an index moved to another sibling, with
+	an index added to a unique element; the answer of the real code against `own_pluck`, and find from such a base against
+	the own walk of the entry the rule addresses, keyed by continuations of the base path as given."""
+	from rogw.tranp.errors import Errors
+	cands = [p for p, _ in walk if '[' in p]
+	variants: list[str] = []
+	for p in rng.sample(cands, min(8, len(cands))):
+		els = p.split('.')
+		for k in range(1, len(els)):
+			if els[k].endswith(']'):
+				variants.append('.'.join([*els[:k], tag_of(els[k]), *els[k + 1:]]))
+				if rng.random() < 0.3:
+					variants.append('.'.join([*els[:k], f'{tag_of(els[k])}[{rng.randint(0, 6)}]', *els[k + 1:]]))
+	for p, _ in rng.sample(walk, min(3, len(walk))):
+		els = p.split('.')
+		k = rng.randrange(len(els))
+		if k > 0 and not els[k].endswith(']'):
+			variants.append('.'.join([*els[:k], f'{els[k]}[{rng.randint(0, 3)}]', *els[k + 1:]]))
+	for q in variants[:40]:
+		want = own_pluck(root, q)
+		try:
+			got = finder.pluck(root, q)
+		except Errors.NodeNotFound:
+			got = None
+		if (want is None) != (got is None) or (want is not None and not same_entry(got, want)):
+			_LAST_PATH.append(q)
+			return f'pluck({q}) returns {"nothing" if got is None else digest(got)}; by the rule (index when present, else the last child with the tag) it addresses {"nothing" if want is None else digest(want)}'
+		if finder.exists(root, q) is not (want is not None):
+			_LAST_PATH.append(q)
+			return f'exists({q}) is {finder.exists(root, q)}; by the lookup rule the path addresses {"nothing" if want is None else digest(want)}'
+		if want is not None:
+			sub = trees.walk_entries(want, q)
+			found = list(finder.find(root, q, lambda e, p: True).items())
+			if [p for p, _ in found] != [p for p, _ in sub] or not all(same_entry(e, we) for (_, e), (_, we) in zip(found, sub)):
+				_LAST_PATH.append(q)
+				return f'find(via={q}) reports {[p for p, _ in found][:6]}; the subtree the lookup rule addresses there is {[p for p, _ in sub][:6]}'
 	return None
 
 
@@ -929,7 +992,7 @@ def search_laws(ctx: Ctx) -> SearchResult:
 					if any(p == _LAST_PATH[0] for p, _ in trees.walk_entries(er)):
 						rep['earlier_tree_with_the_same_path'] = {'tree': en, 'sexp': trees.entry_sexp(er)[:20000]}
 						break
-			res.findings.append(Finding(key='find-disagrees-with-tree' if bad.startswith(('find(', 'exists(')) else 'bijection', what=bad + f' (one ASTFinder instance, {len(earlier)} earlier trees)', replay=rep))
+			res.findings.append(Finding(key='lookup-rule' if 'lookup rule' in bad or 'by the rule' in bad else 'find-disagrees-with-tree' if bad.startswith(('find(', 'exists(')) else 'bijection', what=bad + f' (one ASTFinder instance, {len(earlier)} earlier trees)', replay=rep))
 			break
 		earlier.append((name, root))
 		if len(res.samples) < 2:
@@ -1674,6 +1737,8 @@ STATEMENTS = {
 	'dsn_root_parent': 'DSN.root = first element, DSN.parent = last but one element of an encoded path',
 	'path_valid': 'EntryPath.valid of an encoded path = it has at least one element',
 	'path_escaped': 'EntryPath.escaped_origin is injective on paths free of backslashes: dropping the escapes gives the path back',
+	'pluck_deindexed': 'pluck of a path with the index of ONE element dropped (any position, any tree) = pluck of the path indexed with the position of the LAST child carrying that tag; nothing when no child carries it (the documented lookup rule: index when present, else the last child with the tag)',
+	'pluckS_deindexed': 'the same on the strings ASTFinder.pluck receives (any first element stands for the root): when the path indexed with the last tag child leads to x, so does the de-indexed path (WfTags t)',
 	'find_spec': 'ASTFinder.find(root, via, tester, depth) from any enumerated base path = the pre-order enumeration of the subtree there cut depth levels below it (never for depth < 0), keyed by the paths the WHOLE tree gives those entries (the index of the last element of via included), filtered by the tester — every tester, every depth',
 	'find_sound': 'every (path, entry) find reports is a pair of full_pathfy(root), pluck(root, path) returns that very entry, and the tester accepted it',
 	'find_complete': 'with unbounded depth find leaves out nothing at or below via: the whole enumeration of the subtree, filtered',
@@ -1731,7 +1796,7 @@ def run(ctx: Ctx) -> int:
 				'expand agrees with the tree under RelativefySafe (expand_spec, expand_spec_full), which is discharged for the shipped grammar (relativefy_exact, relativefy_safe_of_root_name, grammar_root_name_free over the generated alphabet, expand_spec_grammar), and provably not without it / beyond three levels '
 				'(expand_relativefy_counterexample, expand_depth3_counterexample: latent, synthetic tag sets only); the depth hypothesis is discharged for the shipped grammar and symbol mapping as well '
 				'(expand_depth_bounded, conforming_depth, grammar_chain_free decided over the generated child table and resolvable tags, expand_spec_full_grammar: expand = the uncapped tree computation on every conforming tree); '
-				'ASTFinder.find / exists report full paths of the whole tree below any base path, for every tester and depth, and agree with group_by (find_spec, find_sound, find_complete, find_agrees_group_by, finder_exists); '
+				'paths full_pathfy does not produce follow the lookup rule "index when present, else the LAST child with the tag" (pluck_deindexed, pluckS_deindexed); ASTFinder.find / exists report full paths of the whole tree below any base path, for every tester and depth, and agree with group_by (find_spec, find_sound, find_complete, find_agrees_group_by, finder_exists); '
 				'the candidate classes of a symbol are those the mapping lists for it, in mapping order (load_resolve, load_can_resolve); the node class is independent of earlier queries (resolve_order, resolve_order_queries, resolve_list_order) and the query memo of Nodes is transparent for every history (memo_keys_injective over the generated keys, memo_transparent; memo_key_counterexample for via containing #) — all on the model, for all trees / worlds',
 			'correspondence_only': 'the EntryPath algebra and the DSN functions on malformed strings and with delimiters other than "." (stream path-algebra); the Memo/Memoize semantics (first factory kept, exception not cached) as modelled in Model/NodesMemo.lean; the real match_feature functions are pure functions of (tree, path) — validated by query permutations on real modules; '
 				'the reading of lark\'s tree builder in translate/gen_grammar_children.py (inlining, filtered tokens, placeholders) — tied by the conformance check on real parse trees and the stream grammar-shape; '
